@@ -39,6 +39,15 @@ CHECKS = {
     "C19": ("spec-table oracle over stderr diagnostics, Teal.mode/contract_type and block cost annotations",
             "opcode/field x declared-version table exhaustive; mode mixtures and cost blocks sampled",
             "trusts vt/spec/avm_table.py (cross-checked against pyteal); field-level modes are not judged", "5/C19"),
+    "C17": ("exit-status / exception monitor around tealer.__main__.main() (in-process) and `python -m tealer` (subprocess sample)",
+            "exploration over fragment programs and adversarial layouts x 9 CLI modes",
+            "programs outside the property's domain (subroutine body reachable without callsub) are skipped using vt/ref/cfg.py", "5/C17"),
+    "C18": ("read-back of every exported DOT / JSON artefact compared with the reference global graph and the in-process API results",
+            "exploration over fragment programs x printers / output formats / filter patterns",
+            "trusts the DOT reader in vt/checks/c18.py and vt/ref/cfg.py", "5/C18"),
+    "C20": ("independent reachability + straight-line matcher on the reference instruction graph vs. match_regex",
+            "exploration over fragment programs x labels x generated patterns",
+            "instruction-level control flow taken as the intra-procedural relation (callsub continues at the next instruction)", "5/C20"),
 }
 
 
